@@ -1785,5 +1785,45 @@ theorem gateFwd_formula (irrS irrG irrY : Irreps)
   · simp [hG0, hG1]
 
 
+
+/-! ### `NormActivation(normalize=False)`: stored epsilon `None`, `Norm(squared=False)` -/
+
+theorem clampNorms_none (n0 : List ℝ) : clampNorms (none : Option ℝ) n0 = n0 := by
+  simp [clampNorms]
+
+/-- the factor without normalisation: `φ(|x| + b)` -/
+def plainScale (phi : ℝ → ℝ) (b q : ℝ) : ℝ := phi (Real.sqrt q + b)
+
+theorem ewMulC_plain_scalings (phi : ℝ → ℝ) (cs : List Ir) (b x : List ℝ) (hb : b.length = cs.length) :
+    ewMulC cs (normActScalings phi false (some b) ((sqNormsC cs x).map Real.sqrt)) x
+      = scaleByC cs (b.map (plainScale phi)) x := by
+  induction cs generalizing x b with
+  | nil => rfl
+  | cons c cs ih =>
+    obtain ⟨l, p⟩ := c
+    cases b with
+    | nil => simp at hb
+    | cons b0 bs =>
+      simp only [List.length_cons, Nat.add_right_cancel_iff] at hb
+      simp only [sqNormsC, List.map_cons, normActScalings_cons, ewMulC, scaleByC, ih _ _ hb]
+      congr 1
+
+/-- closed form of `NormActivation(normalize=False).forward`: copy `u` is multiplied by `φ(‖x_u‖ + b_u)` -/
+theorem normActFwd_closed_form_plain (irr : Irreps) (phi : ℝ → ℝ)
+    (bias : Option (List ℝ)) (hb : ∀ b, bias = some b → b.length = numIrreps irr)
+    (x : List ℝ) (hx : x.length = dim irr) :
+    normActFwd irr phi false none bias x
+      = .ok (scaleByC (expand irr) ((biasList bias (numIrreps irr)).map (plainScale phi)) x) := by
+  rw [normActFwd]
+  simp only [Option.isSome_none]
+  rw [normFwd_closed_form irr x hx]
+  simp only [clampNorms_none, ewMul_eq]
+  cases bias with
+  | some b => rw [ewMulC_plain_scalings _ _ _ _ (by rw [hb b rfl, length_expand])]; rfl
+  | none =>
+    rw [normActScalings_none, List.length_map, length_sqNormsC,
+      ewMulC_plain_scalings _ _ _ _ (by simp), length_expand]; rfl
+
+
 end
 end E3nnVerif.Pointwise
